@@ -548,6 +548,14 @@ class _CanonizeBetween(_Base):
     def draw(rng, sp):
         i, j, _ = _pick_edge(rng, sp)
         absorb = _choice(rng, ["right", "left", "both"])
+        # exercise the early return for tensors already flagged isometric: prefer isometrizing a flagged tensor
+        # (possibly towards another neighbour than the one it was canonized to)
+        nb = sp.neighbours()
+        flagged = [k for k in range(sp.nt) if sp.flags[k] is not None and nb[k]]
+        if flagged and rng.random() < 0.6:
+            i = _choice(rng, flagged)
+            j = _choice(rng, sorted(nb[i]))
+            absorb = "right"
         # a QR has no 'both' form: quimb rejects that combination
         method = _choice(rng, [None, "svd"] if absorb == "both" else [None, "qr", "svd"])
         return dict(i=i, j=j, absorb=absorb, method=method,
@@ -1576,3 +1584,73 @@ def external_gauges(cx):
         start = gen_graph(crng, nt, loopy, dt, e)
         base = dict(i=i, nt=nt, loopy=loopy, dt=dt, e=e)
         compose(cx, qtn, crng, base, start, X_NAMES + G_NAMES, nsteps, dt, "external gauges", first="gauge_all_simple(gauges)")
+
+
+# ----------------------------------------------------------------------------------------------
+# the structure detection kernels the simplification passes rely on
+# ----------------------------------------------------------------------------------------------
+
+
+def _ref_diag(x, atol, anti):
+    best = None
+    idx = np.indices(x.shape)
+    for i in range(x.ndim - 1):
+        for j in range(i + 1, x.ndim):
+            if x.shape[i] != x.shape[j]:
+                continue
+            off = (idx[i] != (x.shape[j] - 1 - idx[j])) if anti else (idx[i] != idx[j])
+            if not np.any(np.abs(x[off]) > atol):
+                if best is None:
+                    best = (i, j)
+    return best
+
+
+def _ref_column(x, atol):
+    idx = np.indices(x.shape)
+    for ax in range(x.ndim):
+        for k in range(x.shape[ax]):
+            if not np.any(np.abs(x[idx[ax] != k]) > atol):
+                return (ax, k)
+    return None
+
+
+@driver("C04", "structure-kernels", chunks=1, timeout=200,
+        bound="array_ops.find_diag_axes / find_antidiag_axes / find_columns on arrays of rank 1-4, dims 1-3, 4 dtypes, "
+              "planted diagonal / antidiagonal / COPY / single-column / rank-one / zero structure and dense data, with "
+              "entries just below and just above atol in the off-structure positions, atol {1e-12, 1e-6, 0.1}: the result "
+              "is the lexicographically first pair satisfying the defining for-all-entries condition, or None")
+def kernels(cx):
+    from quimb.tensor.array_ops import find_antidiag_axes, find_columns, find_diag_axes
+
+    rng = cx.rng
+    n = 600 if cx.quick else 6000
+    kinds = ["dense", "diag", "antidiag", "copy", "column", "lowrank", "identity", "zero"]
+    for i in range(n):
+        nd = int(rng.integers(1, 5))
+        shape = tuple(int(v) for v in rng.integers(1, 4, size=nd))
+        if rng.random() < 0.5 and nd >= 2:
+            shape = (shape[0],) * nd if rng.random() < 0.5 else shape[:-1] + (shape[0],)
+        dt = DTYPES[i % 4]
+        kind = kinds[int(rng.integers(0, len(kinds)))]
+        x = np.zeros(shape, dtype=dt) if kind == "zero" else _structured_array(rng, shape, dt, kind)
+        atol = [1e-12, 1e-6, 0.1][int(rng.integers(0, 3))]
+        noise = ["none", "below", "above"][int(rng.integers(0, 3))]
+        if noise != "none" and x.size:
+            # put an entry of modulus just below / above atol (with either sign / phase) into the zeros
+            zeros = np.argwhere(x == 0)
+            if len(zeros):
+                pos = tuple(zeros[int(rng.integers(0, len(zeros)))])
+                mag = atol * (0.5 if noise == "below" else 2.0)
+                if dt in SINGLE and mag < 1e-30:
+                    mag = 0.0
+                x[pos] = -mag if rng.random() < 0.5 else mag
+        p = dict(i=i, shape=list(shape), dt=dt, kind=kind, atol=atol, noise=noise)
+        cx.check("find_diag_axes == first pair of equal-size axes off which every entry is <= atol", p,
+                 lambda x=x, atol=atol: None if find_diag_axes(x, atol=atol) == _ref_diag(x, atol, False) else
+                 f"got {find_diag_axes(x, atol=atol)}, reference {_ref_diag(x, atol, False)}", nontrivial=x.ndim >= 2)
+        cx.check("find_antidiag_axes == first pair of equal-size axes off whose antidiagonal every entry is <= atol", p,
+                 lambda x=x, atol=atol: None if find_antidiag_axes(x, atol=atol) == _ref_diag(x, atol, True) else
+                 f"got {find_antidiag_axes(x, atol=atol)}, reference {_ref_diag(x, atol, True)}", nontrivial=x.ndim >= 2)
+        cx.check("find_columns == first (axis, index) outside of which every entry is <= atol", p,
+                 lambda x=x, atol=atol: None if find_columns(x, atol=atol) == _ref_column(x, atol) else
+                 f"got {find_columns(x, atol=atol)}, reference {_ref_column(x, atol)}")
